@@ -244,6 +244,7 @@ func (in *c06Inst) applyPrefixOp(op explore.Op) (f *explore.Fail) {
 				panic(x) // explore.Must and runtime errors keep their meaning
 			}
 			f = explore.Failf("panic:"+c06StripDigits(fmt.Sprint(x)), "panic: %v", x)
+			in.fixGen() // the aborted call may have left a fresh random draw behind
 		}
 	}()
 	return in.Apply(op)
